@@ -274,4 +274,61 @@ theorem storeOk_extend {store : Store} (ok : StoreOk store) {scan : Nat → Hdr 
     · obtain ⟨t, ht, hw⟩ := ok.skip_ok i x s hx hs
       exact ⟨t, extend_old hnew' ht, walk_extend hnew' _ x t hw⟩
 
+/-! ## the locator loop terminates and does not panic -/
+
+/-- the loop never runs out of fuel: `index` strictly decreases (by `step ≥ 1`, or by halving
+above `ONE_DAY_BLOCK_NUMBER`), so any fuel above `index` gives the same result — the model's
+bounded loop is the code's unbounded `loop` -/
+theorem locatorLoop_fuel (anc : Nat → Nat → Option Nat) (fuel : Nat) :
+    ∀ (fuel' step index base : Nat) (acc : List Nat), 1 ≤ step → index < fuel → index < fuel' →
+    locatorLoop anc fuel step index base acc = locatorLoop anc fuel' step index base acc := by
+  induction fuel with
+  | zero => intro _ _ _ _ _ _ h _; omega
+  | succ f ih =>
+    intro fuel' step index base acc hstep h1 h2
+    cases fuel' with
+    | zero => omega
+    | succ f' =>
+      simp only [locatorLoop]
+      cases anc base index with
+      | none => rfl
+      | some hh =>
+        simp only []
+        have hs' : 1 ≤ (if (acc ++ [hh]).length ≥ 10 then step * 2 else step) := by
+          split <;> omega
+        generalize (if (acc ++ [hh]).length ≥ 10 then step * 2 else step) = st at hs'
+        by_cases hlt : index < st * 2
+        · simp only [hlt, if_true]
+          by_cases hb : ((acc ++ [hh]).length < 52 && decide (index > CkbVerif.Gen.Sync.ONE_DAY_BLOCK_NUMBER)) = true
+          · simp only [hb, if_true]
+            have hi : index > CkbVerif.Gen.Sync.ONE_DAY_BLOCK_NUMBER := by
+              simp only [Bool.and_eq_true, decide_eq_true_eq] at hb; exact hb.2
+            have : index / 2 < index := Nat.div_lt_self (by omega) (by omega)
+            exact ih f' st (index / 2) hh _ hs' (by omega) (by omega)
+          · simp only [hb, Bool.false_eq_true, if_false]
+        · simp only [hlt, if_false]
+          exact ih f' st (index - st) hh _ hs' (by omega) (by omega)
+
+/-- with every queried ancestor present the loop returns (the code's `expect` cannot fire) -/
+theorem locatorLoop_some (A : Nat → Option Nat) (fuel : Nat) :
+    ∀ (step index base : Nat) (acc : List Nat), (∀ i, i ≤ index → ∃ x, A i = some x) →
+    ∃ r, locatorLoop (fun _ i => A i) fuel step index base acc = some r := by
+  induction fuel with
+  | zero => intro _ _ _ acc _; exact ⟨_, rfl⟩
+  | succ f ih =>
+    intro step index base acc hA
+    simp only [locatorLoop]
+    obtain ⟨x, hx⟩ := hA index (Nat.le_refl _)
+    simp only [hx]
+    generalize (if (acc ++ [x]).length ≥ 10 then step * 2 else step) = st
+    by_cases hlt : index < st * 2
+    · simp only [hlt, if_true]
+      by_cases hb : ((acc ++ [x]).length < 52 && decide (index > CkbVerif.Gen.Sync.ONE_DAY_BLOCK_NUMBER)) = true
+      · simp only [hb, if_true]
+        exact ih _ _ _ _ (fun i hi => hA i (Nat.le_trans hi (Nat.div_le_self _ _)))
+      · simp only [hb, Bool.false_eq_true, if_false]
+        exact ⟨_, rfl⟩
+    · simp only [hlt, if_false]
+      exact ih _ _ _ _ (fun i hi => hA i (Nat.le_trans hi (Nat.sub_le _ _)))
+
 end CkbVerif.Skip
